@@ -58,9 +58,16 @@ ASSUMPTIONS = [
     'relation monitor: no oracle; a defect that is itself covariant (same wrong value in both frames) is invisible here',
     'rows whose footprint (computed from the row\'s own reported geometry, +2 px slack) leaves the original frame '
     'are excluded, as the property states',
+    'moment-derived ratios (centroid, covariance, shape) of ApertureStats are compared only where the zeroth moment is '
+    'well conditioned (sum|v|/|sum v| <= 1e3); orientations only where the second-moment matrix is anisotropic (>1e-6 '
+    'of its trace); masked cutouts may differ in mask where the weighted value is zero within tolerance (tie band of '
+    '`weight == 0` on rounded exact weights); all three are counted in the evidence notes',
+    'an exception raised identically in both frames is still reported (what=raised): the library failed on an input '
+    'the generator deems valid',
     'float positions are compared with atol 1e-9 px, integer indices/boxes/labels exactly, everything else with '
-    'rtol 1e-9 + atol 1e-10*max|data|; iterative fits (Gaussian-fit centroids 5e-3 px; PSF fits 5e-3 px / 1e-2 in flux; '
-    'radial-profile Gaussian fit 1e-8) as measured on the unchanged tree',
+    'rtol 1e-9 + atol 1e-10*max|data|; iterative fits: Gaussian-fit centroids 5e-3 px (measured max 1.5e-5), PSF fits 5e-2 px / 1e-2 in flux / '
+    '3e-2*max|data| in the rendered images (measured max 1.6e-3 px: forward-difference Jacobian relative to the absolute '
+    'position), radial-profile Gaussian fit 1e-8 (measured 4e-14)',
 ]
 
 FREE_RTOL = 1e-9
